@@ -44,7 +44,15 @@ def fault_line(rng, kind, uniq):
     if kind == "prefix-op":
         # the offending expression begins with a prefix operator (possibly continued on the next line)
         op = rng.choice(["-", "!", "~", "<", ">", "+"])
-        site = rng.randrange(5)
+        site = rng.randrange(8)
+        if site == 5:
+            pre = f"{pad}@db 1, "                     # the expression begins with a parenthesis
+            return [pre + "( 300 )"], (0, len(pre) + 1), []
+        if site == 6:
+            return [f"{pad}@assert \\", f"     ( opp{uniq} == 2 )"], (1, 6), [f"@defl opp{uniq}, 3"]
+        if site == 7:
+            pre = f"{pad}  lda #"
+            return [pre + "(300 + 1)"], (0, len(pre) + 1), []
         if site == 0:
             pre = f"{pad}@db 1, "
             return [pre + "- 2"], (0, len(pre) + 1), []
